@@ -677,10 +677,10 @@ static void gen_C18(const std::string &tier, uint64_t seed, long idx, Scn &s) {
   if (is_prod()) { s.i["ptype"] = 2; s.i["sio"] = 0; s.i["inb"] = -1; s.i["outb"] = -1; }
   Bytes sd2 = s.b["seedstr"];
   // the second seed differs from the first in ONE place, anywhere: a byte changed at a random position, the first byte
-  // changed, or a byte appended (seeds are capped at 255 bytes) - an IV derivation that ignores part of the seed shows
+  // changed, or a byte appended - an IV derivation that ignores part of the seed shows
   auto bump = [](uint8_t v) { return (uint8_t)(v == 1 ? 2 : v - 1); };
   int how = sd2.empty() ? 2 : (int)g.below(3);
-  if (how == 2 && sd2.size() >= 200) how = 0;
+  if (how == 2 && g.chance(0.5) && !sd2.empty()) how = 0;
   if (how == 0) { size_t k = g.below(sd2.size()); sd2[k] = bump(sd2[k]); }
   else if (how == 1) sd2[0] = bump(sd2[0]);
   else sd2.push_back((uint8_t)(1 + g.below(255)));
